@@ -5,6 +5,14 @@ import os
 VERIF = os.path.dirname(os.path.dirname(os.path.abspath(__file__)))
 
 CHECKS = {
+    "C03": dict(engine="evo", level="exploration", design="4/C03, 3.1",
+                technique="deterministic simulation: several fresh interpreters ('nodes') per generated program with seeded PYTHONHASHSEED, definition/import/first-query order permutations, sharing one store",
+                text="For batches of generated programs 3 (quick) or 4 (thorough) fresh interpreters are started, each with its own PYTHONHASHSEED drawn from the PRNG, its own permutation of definition order inside every module, of module import order and of the order in which version() is first asked. The function -> version map must be identical on all nodes; node 1 runs a call workload against an empty store and node 2 the same workload against the same store, where the side channel must record zero body executions and all values must equal node 1's.",
+                note="Hash seeds and orders are sampled. A case is a batch of 30-40 programs; evaluations counts program x node runs."),
+    "C12": dict(engine="evo", level="exploration", design="4/C12, 3.1",
+                technique="deterministic simulation: two-lifetime histories (store, restart, evolve the code base, read back) over generated names and evolutions",
+                text="(a) For generated cluster/module/function/explicit-version strings (versions over letters, digits and . _ - + = : # @ incl. adversarial shapes) the qualified name must split back into exactly its parts, and the entry stored under it must be found by calls (no re-execution), memento(), list_mementos() and list_memoized_functions(), in the same lifetime and after a restart. (b) A caller with a pinned version stores caller(x) that used a callee (directly or through an intermediate function); before the second lifetime the callee is edited, removed, renamed, made plain, re-clustered or has a tracked global changed; in default and named clusters, with and without cache: no operation may raise, caller(x) is served without executing, and references to callee versions that no longer exist are flagged external while live ones are not.",
+                note="Sampling. Cluster names are drawn without ':' and '#' (the naming scheme is ambiguous otherwise). For a re-clustered callee only 'never raises / is served' is asserted."),
     "C01": dict(engine="evo", level="exploration", design="4/C01, 3.1",
                 technique="deterministic simulation: seeded program-edit histories over process lifetimes sharing one store, compared call by call with an un-memoized sibling lifetime running the same source texts",
                 text="Generated packages of memento and plain functions (constants, nested code, set/tuple constants, f-strings, positional and keyword-only defaults, tracked globals, bare/attribute/alias/hidden call edges, recursion, explicit versions, salts) are edited 1-8 times; each edit is delivered cross-process (files rewritten, fresh forked lifetime importing them, same persistent store) or in-process (re-execution of one def or of the whole module as a notebook cell, attribute rebinding, in-place mutation). After every edit auto-versioned functions are called plainly and through call/ignore_result/force_local/partial/with_context_args; each outcome must equal the outcome of a reference lifetime in which memento_function is a pass-through decorator, or be UndeclaredDependencyError. A mismatch is classified by the stale ingredient.",
